@@ -176,6 +176,8 @@ MACRO_WITNESS = [
     ("macro:paste-multi-token-argument-not-rescanned", ["#define S(x) #x", "#define C(a,b) x ## a b"], "C(1 S(q), 2)"),
     ("macro:empty-va-args-comma", ["#define F(p, ...) G(p, __VA_ARGS__, __VA_ARGS__)"], "F(1)"),
     ("macro:dot-number-merged", ["#define D(a) a"], "D(x . 42)"),
+    ("macro:shift-assign-merged-across-blank", ["#define D(a) a"], "D(x << = 1)"),
+    ("macro:function-name-not-joined-in-argument", ["#define F(a,b) b->", "#define ID(x) x", "#define W(y) y"], "W(ID(F)(foo,>))"),
     ("macro:recursive-table-reexpansion", ["#define A(x) B(x)", "#define B(y) A(y) y"], "A(B(1))"),
 ]
 
